@@ -133,6 +133,9 @@ func Alphabet(sigTypes []string, suffix string) []Sym {
 		b.add("create/"+name, "", operation.TypeCreate, suffix, ops.Bytes(c), d)
 	}
 	mkCreate("valid-keys-services", []any{pAddKey1(), pAddSvc()}, "origin.example", nil)
+	// a document that keeps a top-level member without entries (all services removed again; a replace without services)
+	mkCreate("valid-service-member-left-empty", []any{pAddKey1(), pAddSvc(), ops.ParseJSON(`{"action":"remove-services","ids":["s1"]}`)}, "oe", nil)
+	mkCreate("valid-replace-keys-only", []any{ops.ParseJSON(`{"action":"replace","document":{"publicKeys":[` + ops.PubKeyJSON("k1", keys.New("P-256", 7), `["authentication"]`) + `]}}`)}, "ok", nil)
 	mkCreate("valid-aka-json", []any{pAKA(), pJSONAdd()}, ops.M{"a": 1.0, "b": []any{"x"}}, nil)
 	mkCreate("valid-no-origin", []any{pAddKey2()}, nil, nil)
 	mkCreate("delta-unbound", []any{pAddKey1()}, "o2", func(c ops.M, d *sidetree.Desc) {
@@ -157,6 +160,21 @@ func Alphabet(sigTypes []string, suffix string) []Sym {
 		d.DeltaValid = false
 	})
 	mkCreate("delta-oversize", []any{pBig()}, "o8", func(c ops.M, d *sidetree.Desc) { d.DeltaValid = false })
+	// a delta whose canonical form has exactly the maximum delta size and holds characters that other JSON writers escape (& < > U+2028)
+	pAtLimit := func(name string) any {
+		mk := func(n int) any {
+			return ops.ParseJSON(`{"action":"ietf-json-patch","patches":[{"op":"add","path":"/` + name + `","value":"a=1&b=<2>&c=\u2028&` + strings.Repeat("p", n) + `"}]}`)
+		}
+		size := func(n int) int {
+			return len(ops.Canon(ops.Delta(ops.Commitment(keys.New("Ed25519", 1), Code), []any{mk(n)})))
+		}
+		n := int(Proto().MaxDeltaSize) - size(0)
+		if size(n) != int(Proto().MaxDeltaSize) {
+			panic("syms: cannot pad a delta to the size limit")
+		}
+		return mk(n)
+	}
+	mkCreate("delta-at-size-limit", []any{pAtLimit("padc")}, "o8b", nil)
 	mkCreate("inapplicable", []any{pAddKey1(), pJSONBad()}, "o9", nil)
 	mkCreate("bad-recovery-commitment", []any{pAddKey1()}, "o10", func(c ops.M, d *sidetree.Desc) {
 		c["suffixData"].(ops.M)["recoveryCommitment"] = "zzzz"
@@ -271,6 +289,7 @@ func Alphabet(sigTypes []string, suffix string) []Sym {
 			return ops.ValidUpdate(suffix, s, n, []any{pAKA()}, Code, none)
 		})
 		mkUpdate("inapplicable", e, []any{pAKA(), pJSONBad()}, none, nil)
+		mkUpdate("delta-at-size-limit", e, []any{pAtLimit("padu")}, none, nil)
 		mkUpdate("unparsable", e, nil, none, func(s, n *keys.Key, d *sidetree.Desc) ops.M {
 			d.Refused = true
 			return ops.M{"type": "update", "didSuffix": suffix}
@@ -355,6 +374,7 @@ func Alphabet(sigTypes []string, suffix string) []Sym {
 			return ops.ValidRecover(suffix, s, nr, nu, []any{pDisabled()}, Code, "rd", none)
 		})
 		mkRecover("inapplicable", e, []any{pAddKey1(), pJSONBad()}, "rx", none, nil)
+		mkRecover("delta-at-size-limit", e, []any{pAtLimit("padr")}, "rl", none, nil)
 		{
 			t := int64(b.anchor().Time)
 			mkRecover("window-late", e, []any{pAddKey1()}, "rw", ops.Window{From: t - 20, Until: t - 1}, nil)
